@@ -43,6 +43,8 @@ var vEntries = []string{
 var vPatterns = []string{
 	"a.txt", "*", "*.txt", "d", "d/*", "all:d", "all:*", ".", "..", "d/e", "d/e/f", `"a.txt"`, "`b c.txt`", `"b c.txt"`, "m", "m/x", "z", "l", "/abs", "a.txt/", "*/*",
 	"[", "d/a a.txt", "a.txt a.txt", "d.md d", ".h", "all:.h", "d/.h", "d/_u", "_u", "é.txt", "d*", "all:d*", "../x", "d/../a.txt", "nope", "d/aux.txt", "d/n", "d/s", "all:d/s", "d/.svn",
+	// an all: pattern followed by a plain one in the same directive: the prefix applies to its own pattern only
+	"all:d/s d", "all:m d", "all:d/e d/s", "d all:d/s", "all:z d/*",
 }
 
 type vCase struct {
